@@ -96,6 +96,14 @@ def build_cache_hit_event(
     )
 
 
+def error_text(error: BaseException) -> str:
+    """Text of an exception for an event; an exception whose __str__ itself fails is named by its type."""
+    try:
+        return str(error)
+    except Exception:
+        return type(error).__name__
+
+
 def build_node_error_event(
     run_id: str,
     node_span_id: str,
@@ -113,7 +121,7 @@ def build_node_error_event(
         parent_span_id=run_span_id,
         node_name=node.name,
         graph_name=graph.name,
-        error=str(exc_val) if exc_val else "",
+        error=error_text(exc_val) if exc_val else "",
         error_type=f"{exc_type.__module__}.{exc_type.__qualname__}" if exc_type else "",
     )
 
@@ -195,6 +203,6 @@ def build_run_end_event(
         parent_span_id=parent_span_id,
         graph_name=graph.name,
         status=RunStatus.FAILED if error is not None else RunStatus.COMPLETED,
-        error=str(error) if error is not None else None,
+        error=error_text(error) if error is not None else None,
         duration_ms=duration_ms,
     )
